@@ -13,8 +13,11 @@ The model (`Gms/Model/ShowCreate.lean`) transliterates the schema formatter. Thi
                         are one character map (no step re-escapes what an earlier step produced);
 * `lexStr_escape`       a comment printed through that function reads back as the comment;
 * `lexStr_strLit`       a string default printed by `Literal.String()` reads back as the string;
-* `lexStr_raw_iff_safe` a string printed *without* escaping (index comments) reads back iff it holds
-                        neither a quote nor a backslash — `finding_index_comment_unescaped`.
+* `index_comment_round_trip` / `showKey_reads_back`  the comment of a secondary index goes through
+                        the same function since the `fix:` commit, so it reads back too, for all
+                        strings; `fixed_index_comment_unescaped` keeps the pre-fix printer's
+                        behaviour on the old witness (`lexStr_raw_of_safe`: printed *without*
+                        escaping, a string read back only when it held no quote and no backslash).
 -/
 
 set_option linter.unusedSimpArgs false
@@ -202,8 +205,8 @@ theorem lexStrBody_raw (s rest acc : Str) (hs : rawSafe s = true) (h : rest.head
     rw [lexStrBody_plain c _ acc hs.1.1 hs.1.2, ih (c :: acc) (by simpa [rawSafe] using hs.2)]
     simp
 
-/-- **Unescaped printing** (index comments) reads back when the comment holds neither a quote nor a
-backslash. -/
+/-- **Unescaped printing** (index comments before the `fix:` commit) reads back when the comment
+holds neither a quote nor a backslash. -/
 theorem lexStr_raw_of_safe (s rest : Str) (hs : rawSafe s = true) (h : rest.head? ≠ some '\'') :
     lexStr ('\'' :: s ++ '\'' :: rest) = some (s, rest) := by
   unfold lexStr
@@ -231,40 +234,65 @@ theorem comment_round_trip (s rest : Str) (h : rest.head? ≠ some '\'') :
 theorem default_round_trip (s rest : Str) (h : rest.head? ≠ some '\'') :
     lexStr (strLit s ++ rest) = some (s, rest) := lexStr_strLit s rest h
 
-/-
-The property for index comments at full strength — FALSE for the unchanged code:
+/-- **Index comments read back** — the full statement, which was false before the `fix:` commit
+(`fixed_index_comment_unescaped`): `GenerateCreateTableIndexDefinition` prints the comment through
+`EscapeSpecialCharactersInComment`, so its printed form reads back as the comment, for all strings. -/
+theorem index_comment_round_trip (s rest : Str) (h : rest.head? ≠ some '\'') :
+    lexStr ('\'' :: escapeSeq s ++ '\'' :: rest) = some (s, rest) := lexStr_escape s rest h
 
-  theorem index_comment_round_trip (s rest : Str) (h : rest.head? ≠ some '\'') :
-      lexStr ('\'' :: s ++ '\'' :: rest) = some (s, rest)
--/
+/-- The same on the printer model: the text of a key with a comment ends in a literal that reads
+back as that comment and hands over exactly what follows the key definition. -/
+theorem showKey_reads_back (k : Key) (hk : k.comment ≠ []) (rest : Str) (h : rest.head? ≠ some '\'') :
+    showKey k ++ rest = showKeyHead k ++ " COMMENT ".toList ++ ('\'' :: escapeSeq k.comment ++ '\'' :: rest) ∧
+    lexStr ('\'' :: escapeSeq k.comment ++ '\'' :: rest) = some (k.comment, rest) := by
+  refine ⟨?_, lexStr_escape k.comment rest h⟩
+  have he : k.comment.isEmpty = false := by
+    cases hc : k.comment with
+    | nil => exact absurd hc hk
+    | cons _ _ => rfl
+  rw [escapeSeq_eq]
+  simp [showKey, he]
 
-/-- **Index comments, guarded**: printed without escaping, they read back outside region
-`index_comment_unescaped` (no quote, no backslash). -/
-theorem index_comment_round_trip_partial (s rest : Str) (hs : rawSafe s = true) (h : rest.head? ≠ some '\'') :
+/-- A key without a comment prints no COMMENT clause (nothing to read back). -/
+theorem showKey_no_comment (k : Key) (hk : k.comment = []) : showKey k = showKeyHead k := by
+  simp [showKey, hk]
+
+/-- The pre-fix printer, guarded (the former `index_comment_round_trip_partial`): printed without
+escaping, a comment read back when it held no quote and no backslash. -/
+theorem index_comment_round_trip_prefix (s rest : Str) (hs : rawSafe s = true) (h : rest.head? ≠ some '\'') :
     lexStr ('\'' :: s ++ '\'' :: rest) = some (s, rest) := lexStr_raw_of_safe s rest hs h
 
-/-- `KEY k1 (b) COMMENT 'it''s'` is printed as `COMMENT 'it's'`. -/
+/-- `KEY k1 (b) COMMENT 'it''s'` was printed as `COMMENT 'it's'`. -/
 def wComment : Str := ['i', 't', '\'', 's']
 
-/-- **Finding `index_comment_unescaped`**: the printed form of an index comment with a quote reads
-back as a different string and leaves a dangling tail (the statement is a syntax error); with a
-backslash it reads back as a different string. The escaped form (what column comments get) reads back. -/
-theorem finding_index_comment_unescaped :
-    rawSafe wComment = false ∧
+def exCol : Col := { name := ['a'], ty := Ty.int, notNull := true, autoInc := false, dflt := none, comment := [] }
+def exKey : Key := { unique := false, name := ['k'], cols := [['a']], comment := wComment }
+def exKeyBs : Key := { unique := false, name := ['k'], cols := [['a']], comment := ['a', '\\', 'b'] }
+def exTable : Table := { name := ['t'], cols := [exCol], pk := [['a']], keys := [exKey], comment := [] }
+
+/-- **Repaired defect `index_comment_unescaped`.** Before the `fix:` commit the comment of a secondary
+index was put between quotes as it was: with a quote in it the printed literal read back as a
+different string and left a dangling tail (the statement was a syntax error), with a backslash it
+read back as a different string. The repaired printer escapes it, and both read back. -/
+theorem fixed_index_comment_unescaped :
+    -- the pre-fix printer on the witness
+    showKeyPreFix exKey = "  KEY `k` (`a`) COMMENT 'it's'".toList ∧
     lexStr ('\'' :: wComment ++ ['\'', ')']) = some (['i', 't'], ['s', '\'', ')']) ∧
+    showKeyPreFix exKeyBs = "  KEY `k` (`a`) COMMENT 'a\\b'".toList ∧
     lexStr ('\'' :: ['a', '\\', 'b'] ++ ['\'', ')']) = some (['a', Char.ofNat 8], [')']) ∧
-    lexStr ('\'' :: escapeSeq wComment ++ ['\'', ')']) = some (wComment, [')']) := by
+    -- the repaired printer on the same inputs
+    showKey exKey = "  KEY `k` (`a`) COMMENT 'it''s'".toList ∧
+    lexStr ('\'' :: escapeSeq wComment ++ ['\'', ')']) = some (wComment, [')']) ∧
+    showKey exKeyBs = "  KEY `k` (`a`) COMMENT 'a\\\\b'".toList ∧
+    lexStr ('\'' :: escapeSeq ['a', '\\', 'b'] ++ ['\'', ')']) = some (['a', '\\', 'b'], [')']) ∧
+    showTablePreFix exTable ≠ showTable exTable := by
   decide
 
-/-- The model's region predicate is exactly "some index comment does not read back". -/
-theorem region_iff (t : Table) :
-    indexCommentUnsafe t = true ↔ ∃ k ∈ t.keys, rawSafe k.comment = false := by
-  simp [indexCommentUnsafe, List.any_eq_true]
-
-/-- The Go text and the Spec text (index comments escaped like every other comment) of a key whose
-comment has none of the characters the escaping touches are the same text. -/
-theorem showKey_eq_of_plain (k : Key) (h : escape k.comment = k.comment) : showKey false k = showKey true k := by
-  simp [showKey, h]
+/-- Where the escaping touches nothing the repair changes nothing: the pre-fix and the repaired text
+of a key whose comment has none of the six special characters are the same text. -/
+theorem showKey_eq_prefix_of_plain (k : Key) (h : escape k.comment = k.comment) : showKeyPreFix k = showKey k := by
+  unfold showKey showKeyPreFix
+  rw [h]
 
 -- Non-vacuity / printer examples ----------------------------------------------------------------
 
@@ -275,23 +303,23 @@ example : escapeSeq ['\'', '\\', '"', '\n'] = ['\'', '\'', '\\', '\\', '\\', '"'
 example : showCol { name := ['a', '`'], ty := .int, notNull := true, autoInc := false, dflt := some (.num ['5']),
                     comment := ['x', '\''] } = "  `a``` int NOT NULL DEFAULT '5' COMMENT 'x'''".toList := by decide
 
-def exCol : Col := { name := ['a'], ty := Ty.int, notNull := true, autoInc := false, dflt := none, comment := [] }
-def exKey : Key := { unique := false, name := ['k'], cols := [['a']], comment := wComment }
-def exTable : Table := { name := ['t'], cols := [exCol], pk := [['a']], keys := [exKey], comment := [] }
-
 set_option maxRecDepth 20000 in
-example : showTable false exTable
-  = "CREATE TABLE `t` (\n  `a` int NOT NULL,\n  PRIMARY KEY (`a`),\n  KEY `k` (`a`) COMMENT 'it's'\n) ENGINE=InnoDB DEFAULT CHARSET=utf8mb4 COLLATE=utf8mb4_0900_bin".toList := by
+example : showTable exTable
+  = "CREATE TABLE `t` (\n  `a` int NOT NULL,\n  PRIMARY KEY (`a`),\n  KEY `k` (`a`) COMMENT 'it''s'\n) ENGINE=InnoDB DEFAULT CHARSET=utf8mb4 COLLATE=utf8mb4_0900_bin".toList := by
   decide
 
-example : indexCommentUnsafe exTable = true := by decide
+-- the hypotheses of `showKey_reads_back` / `index_comment_round_trip_prefix` are satisfiable
+example : exKey.comment ≠ [] ∧ ([')'] : Str).head? ≠ some '\'' := by decide
+example : rawSafe ['o', 'k', ' ', '"'] = true ∧ rawSafe wComment = false := by decide
 
 -- Regenerated facts -----------------------------------------------------------------------------
 
 set_option maxRecDepth 20000 in
 open Gms.Generated.C22 in
 /-- The format strings of the formatter, the replacement pairs of the comment escaping (in source
-order) and which comments go through it, re-read from the source on every run. -/
+order) and which comments go through it, re-read from the source on every run. The index comment
+must be passed through `EscapeSpecialCharactersInComment` (the repair of `index_comment_unescaped`):
+if that call disappears again this obligation breaks and `fixed_index_comment_unescaped` is the replay. -/
 theorem facts_match :
     litsGenerateCreateTableStatement = ["", " COMMENT='%s'", "", " AUTO_INCREMENT=%s",
       "CREATE%s TABLE %s (\n%s\n) ENGINE=InnoDB%s DEFAULT CHARSET=%s COLLATE=%s%s", ",\n"] ∧
@@ -302,7 +330,7 @@ theorem facts_match :
       "  %s%s%s%sKEY %s (%s)", ",", "", "%s COMMENT '%s'"] ∧
     litsQuoteIdentifier = ["`%s`", "`", "``"] ∧
     litsEscape = ["'", "''", "\\", "\\\\", "\"", "\\\"", "\n", "\\n", "\r", "\\r", "\x00", "\\0"] ∧
-    indexCommentEscaped = false ∧ columnCommentEscaped = true := by
+    indexCommentEscaped = true ∧ columnCommentEscaped = true := by
   decide
 
 open Gms.Generated.C22 in
